@@ -2073,3 +2073,278 @@ func ROptMemo(c *core.Ctx) {
 		c.OK("parser / no memo of option-dependent scan results", token.NoPos, "%d map updates on parser fields examined; none stores a *CharSet / *RegexNode", nMaps)
 	}
 }
+
+// R-STARTRANGE: a caller-supplied start offset is compared with the input's length.
+func RStartRange(c *core.Ctx) {
+	c.Rule("R-STARTRANGE", "every exported method of Regexp that takes a start offset from its caller compares it with the length of the input — itself or in a function it hands the offset to — before it can reach the scan position: the interpreter trusts Runtextpos <= len(text) (right-to-left it reads text[pos-1] first thing)", 3)
+	p := c.P
+	root := p.Pkg("regexp2")
+	if root == nil {
+		c.Anchor("package regexp2")
+		return
+	}
+	info := root.TypesInfo
+	decl := map[*types.Func]*ast.FuncDecl{}
+	for _, fd := range p.FuncDecls(root) {
+		if fn, ok := info.Defs[fd.Name].(*types.Func); ok && fd.Body != nil {
+			decl[fn] = fd
+		}
+	}
+	paramObj := func(fd *ast.FuncDecl, idx int) types.Object {
+		i := 0
+		for _, f := range fd.Type.Params.List {
+			for _, id := range f.Names {
+				if i == idx {
+					return info.ObjectOf(id)
+				}
+				i++
+			}
+			if len(f.Names) == 0 {
+				i++
+			}
+		}
+		return nil
+	}
+	// does fd compare obj with len(...) ?
+	var checks func(fd *ast.FuncDecl, obj types.Object, depth int, seen map[*ast.FuncDecl]bool) bool
+	checks = func(fd *ast.FuncDecl, obj types.Object, depth int, seen map[*ast.FuncDecl]bool) bool {
+		if depth > 3 || seen[fd] {
+			return false
+		}
+		seen[fd] = true
+		found := false
+		ast.Inspect(fd.Body, func(x ast.Node) bool {
+			if found {
+				return false
+			}
+			switch y := x.(type) {
+			case *ast.BinaryExpr:
+				switch y.Op {
+				case token.GTR, token.GEQ, token.LSS, token.LEQ:
+					for _, pr := range [][2]ast.Expr{{y.X, y.Y}, {y.Y, y.X}} {
+						id, ok := ast.Unparen(pr[0]).(*ast.Ident)
+						if !ok || info.ObjectOf(id) != obj {
+							continue
+						}
+						if call, ok := ast.Unparen(pr[1]).(*ast.CallExpr); ok {
+							if fid, ok := call.Fun.(*ast.Ident); ok && fid.Name == "len" {
+								found = true
+							}
+						}
+					}
+				}
+			case *ast.CallExpr:
+				cal := core.Callee(info, y)
+				cfd := decl[cal]
+				if cfd == nil {
+					return true
+				}
+				for i, a := range y.Args {
+					if id, ok := ast.Unparen(a).(*ast.Ident); ok && info.ObjectOf(id) == obj {
+						if po := paramObj(cfd, i); po != nil && checks(cfd, po, depth+1, seen) {
+							found = true
+						}
+					}
+				}
+			}
+			return true
+		})
+		return found
+	}
+	n := 0
+	for _, fd := range p.FuncDecls(root) {
+		if fd.Body == nil || fd.Recv == nil || !fd.Name.IsExported() || p.IsTestFile(fd.Pos()) {
+			continue
+		}
+		if _, tn := core.NamedOf(info.TypeOf(fd.Recv.List[0].Type)); tn != "Regexp" {
+			continue
+		}
+		idx := 0
+		for _, f := range fd.Type.Params.List {
+			for _, id := range f.Names {
+				if strings.EqualFold(id.Name, "startAt") {
+					n++
+					name := core.DeclName(root, fd)
+					c.Visit(name)
+					ok := checks(fd, info.ObjectOf(id), 0, map[*ast.FuncDecl]bool{})
+					c.Check(ok, name+" / startAt is compared with the input length", fd.Pos(), "the offset reaches run/scan without ever being compared with len(input): a value past the end becomes the scan position")
+				}
+				idx++
+			}
+		}
+	}
+	if n == 0 {
+		c.Anchor("exported Regexp methods with a startAt parameter")
+	}
+}
+
+// R-RUNEIDX: a rune used as a table index has a lower bound too.
+func RRuneIdx(c *core.Ctx) {
+	c.Rule("R-RUNEIDX", "wherever a rune-typed value (or its shift) indexes an array, slice or string at match time (packages regexp2, helpers and the matching side of syntax), a dominating test bounds it from below (x >= 0), or the value was converted to an unsigned type or masked first: rune-slice input is caller-supplied and may hold negative values, for which `x < 128` alone selects the table and the index panics", 3)
+	p := c.P
+	n := 0
+	var stripConv func(v ssa.Value) ssa.Value
+	stripConv = func(v ssa.Value) ssa.Value {
+		for {
+			cv, ok := v.(*ssa.Convert)
+			if !ok {
+				return v
+			}
+			v = cv.X
+		}
+	}
+	isRune := func(v ssa.Value) bool {
+		b, ok := v.Type().Underlying().(*types.Basic)
+		return ok && b.Kind() == types.Int32
+	}
+	hasUnsignedConv := func(v ssa.Value) bool {
+		for {
+			cv, ok := v.(*ssa.Convert)
+			if !ok {
+				return false
+			}
+			if b, ok := cv.Type().Underlying().(*types.Basic); ok && b.Info()&types.IsUnsigned != 0 {
+				// converting a negative rune to unsigned gives a huge value: only fine when a bound check follows; treat as "bounded by the upper test"
+				return true
+			}
+			v = cv.X
+		}
+	}
+	lowerBounded := func(x ssa.Value, b *ssa.BasicBlock) bool {
+		for _, f := range core.FactsAtBlock(b) {
+			a, bb, op, ok := core.CmpNorm(f)
+			if !ok {
+				continue
+			}
+			// k <= x , k < x with k >= 0 (k<x with k >= -1)
+			if k, isC := core.IntConst(a); isC && (core.SameValue(bb, x) || sameFieldLoadFn(b.Parent(), bb, x, false)) {
+				if (op == token.LEQ && k >= 0) || (op == token.LSS && k >= -1) {
+					return true
+				}
+			}
+			// x == k with k >= 0
+			if k, isC := core.IntConst(bb); isC && core.SameValue(a, x) && op == token.EQL && k >= 0 {
+				return true
+			}
+		}
+		return false
+	}
+	// a value that cannot be negative by construction (loop counters that start at a constant >= 0 and only grow: coinductive on phis)
+	assumed := map[*ssa.Phi]bool{}
+	var nonNeg func(v ssa.Value, d int) bool
+	nonNeg = func(v ssa.Value, d int) bool {
+		if d > 4 {
+			return false
+		}
+		switch x := v.(type) {
+		case *ssa.Const:
+			k, ok := core.IntConst(x)
+			return ok && k >= 0
+		case *ssa.BinOp:
+			switch x.Op {
+			case token.AND:
+				return nonNeg(x.X, d+1) || nonNeg(x.Y, d+1)
+			case token.REM, token.QUO, token.SHR, token.ADD, token.MUL:
+				return nonNeg(x.X, d+1) && nonNeg(x.Y, d+1)
+			}
+		case *ssa.Convert:
+			if b, ok := x.X.Type().Underlying().(*types.Basic); ok && b.Info()&types.IsUnsigned != 0 {
+				return true
+			}
+			return nonNeg(x.X, d+1)
+		case *ssa.Extract:
+			// the rune of `range string` / utf8.Decode*: never negative
+			if nx, ok := x.Tuple.(*ssa.Next); ok && nx.IsString {
+				return true
+			}
+			if call, ok := x.Tuple.(*ssa.Call); ok {
+				if cal := call.Call.StaticCallee(); cal != nil && cal.Pkg != nil && cal.Pkg.Pkg.Path() == "unicode/utf8" {
+					return true
+				}
+			}
+		case *ssa.Phi:
+			if assumed[x] {
+				return true
+			}
+			assumed[x] = true
+			defer delete(assumed, x)
+			for _, e := range x.Edges {
+				if e != ssa.Value(x) && !nonNeg(e, d+1) {
+					return false
+				}
+			}
+			return true
+		}
+		return false
+	}
+	// match-time code: everything reachable from the scan funnel, plus the exported search helpers
+	scanFn := p.SSAFunc(p.LookupFunc("", "Runner.scan"))
+	if scanFn == nil {
+		c.Anchor("regexp2.Runner.scan")
+		return
+	}
+	matchTime := p.Reachable([]*ssa.Function{scanFn})
+	for _, fn := range p.ModuleFuncs() {
+		if core.FnPkgPath(fn) == core.PkgHelpers {
+			matchTime[fn] = true
+		}
+	}
+	for _, fn := range p.ModuleFuncs() {
+		pk := core.FnPkgPath(fn)
+		if pk != core.PkgRoot && pk != core.PkgHelpers && pk != core.PkgSyntax {
+			continue
+		}
+		name := core.SSAName(fn)
+		ord := 0
+		for _, b := range fn.Blocks {
+			for _, ins := range b.Instrs {
+				var idx ssa.Value
+				switch x := ins.(type) {
+				case *ssa.IndexAddr:
+					idx = x.Index
+				case *ssa.Index:
+					idx = x.Index
+				case *ssa.Lookup:
+					if _, isMap := x.X.Type().Underlying().(*types.Map); !isMap {
+						idx = x.Index
+					}
+				}
+				if idx == nil {
+					continue
+				}
+				if hasUnsignedConv(idx) {
+					continue
+				}
+				base := stripConv(idx)
+				// x >> k, x / k, x % k : the sign survives (Go truncates towards zero)
+				for {
+					bo, ok := base.(*ssa.BinOp)
+					if !ok || (bo.Op != token.SHR && bo.Op != token.QUO && bo.Op != token.REM) {
+						break
+					}
+					if _, isC := bo.Y.(*ssa.Const); !isC {
+						break
+					}
+					base = stripConv(bo.X)
+				}
+				if !isRune(base) {
+					continue
+				}
+				if !matchTime[fn] {
+					continue
+				}
+				if _, isConst := base.(*ssa.Const); isConst {
+					continue
+				}
+				ord++
+				n++
+				c.Visit(name)
+				ok := nonNeg(base, 0) || lowerBounded(base, b)
+				c.Check(ok, fmt.Sprintf("%s / rune used as an index #%d has a lower bound", name, ord), ins.Pos(), "the index is a rune with no dominating `>= 0` test (and no unsigned conversion / mask): a negative rune in caller-supplied []rune input passes an upper-bound test like `< 128` and panics here")
+			}
+		}
+	}
+	if n == 0 {
+		c.Anchor("index expressions whose index is a rune")
+	}
+}
